@@ -97,6 +97,11 @@ void actor_body(ActorSpec* sp, const std::string& aid);
 void do_op(Ctx& c, int idx, const Op& op);
 void dump_blocked();
 int run_walk(sg4::Engine& e);
+// engine D (s4usim_mcd.cpp): side file of terminal outcomes under simgrid-mc, reference walker with exact path replay
+extern bool mcd_assert_failed;
+void mcd_init();
+void mcd_assert_fail(const Ctx& c, int idx);
+int run_walk_d(sg4::Engine& e);
 // monitors / plugins (s4usim_mon.cpp)
 void time_advance_monitor(double delta);
 void init_plugin(const std::string& name);
